@@ -1204,6 +1204,23 @@ class AsyncServerWorld(ServerWorld):
                 if not conn.accepted:
                     req.gw_errors.append('websocket.send before accept')
                     return
+                slow = self.app_opts.get('slow_ws_write', 0)
+                if slow and self.k.tape.chance(slow, 8, 'ws_write_blocked'):
+                    # the socket buffer is full: the gateway suspends the
+                    # sending task until it has drained; other tasks run
+                    d = (1 + self.k.tape.draw(3, 'ws_write_blocked_for')) \
+                        * K.TICK
+                    self.fault('ws_write_blocked')
+                    self.k.stall_total += d
+                    await asyncio.sleep(d)
+                    if self.k.killing or st['closed']:
+                        return
+                    if conn.server_seen_close:
+                        self.late_sends += 1
+                        if self.app_opts.get('asgi_send_after_close',
+                                             'raise') == 'raise':
+                            raise ClientDisconnected()
+                        return
                 data = event.get('bytes')
                 if data is None:
                     data = event.get('text')
